@@ -37,6 +37,8 @@ func raceCheck(args []string) {
 		msg := r.msg()
 		// DST with spare capacity inside a larger buffer: the layout under which an in-place append is a shared write
 		_, dst := carve(r, r.dst(false), 3, 8, 4)
+		// an oversize DST (> 255 bytes: the hashing branch) shared by all goroutines, with and without spare capacity
+		_, dstLong := carve(r, r.bytes(256+r.intn(80)), 2, []int{0, 5}[round%2], 3)
 		encC := encCompressed(r.affinePoint())
 		scB := make([]byte, 32)
 		r.scalarVal().FillBytes(scB)
@@ -65,6 +67,9 @@ func raceCheck(args []string) {
 			{"HashToGroup(shared msg,dst)", func() []byte { return secp.HashToGroup(msg, dst).Encode() }},
 			{"EncodeToGroup(shared msg,dst)", func() []byte { return secp.EncodeToGroup(msg, dst).Encode() }},
 			{"HashToScalar(shared msg,dst)", func() []byte { return secp.HashToScalar(msg, dst).Encode() }},
+			{"HashToGroup(shared msg, oversize dst)", func() []byte { return secp.HashToGroup(msg, dstLong).Encode() }},
+			{"EncodeToGroup(shared msg, oversize dst)", func() []byte { return secp.EncodeToGroup(msg, dstLong).Encode() }},
+			{"HashToScalar(shared msg, oversize dst)", func() []byte { return secp.HashToScalar(msg, dstLong).Encode() }},
 		}
 		for _, s := range scens {
 			want := s.f()
